@@ -60,9 +60,20 @@ func noteExpiry() {
 	}
 }
 
+// panicked records a panic raised inside a library call made from a harness goroutine (a data
+// race inside the library can corrupt state and panic, e.g. inside compress/flate); the case is
+// then a direct violation instead of the death of the harness.
+var panicked atomic.Value
+
+func catchPanic() {
+	if r := recover(); r != nil {
+		panicked.Store(fmt.Sprintf("panic in a library call: %v", r))
+	}
+}
+
 func guarded(f func()) bool {
 	done := make(chan struct{})
-	go func() { defer close(done); f() }()
+	go func() { defer close(done); defer catchPanic(); f() }()
 	select {
 	case <-done:
 		return true
@@ -130,6 +141,7 @@ func runStream(ci *caseIn) (string, map[string]interface{}, string) {
 		for w := range ci.Writers {
 			wg.Add(1)
 			go func(w int) {
+				defer catchPanic()
 				defer wg.Done()
 				for _, m := range ci.Writers[w] {
 					if err := ta.Write(m); err != nil {
@@ -232,6 +244,7 @@ func runDgram(ci *caseIn) (string, map[string]interface{}, string) {
 			wg.Add(1)
 			go func(k int) {
 				defer wg.Done()
+				defer catchPanic()
 				for _, o := range ci.Ops {
 					if o.Handle != k {
 						continue
@@ -352,6 +365,9 @@ func runCase(ci *caseIn) (string, map[string]interface{}, string) {
 			term, obs, direct = runDgram(ci)
 		}
 	}()
+	if v := panicked.Swap(""); v != nil && v.(string) != "" {
+		direct = v.(string)
+	}
 	return term, obs, direct
 }
 
